@@ -30,6 +30,8 @@ def skip_choice(choice):
 
 def run(chk):
     chk.level = "proof"
+    from props import native_diff
+    native_diff.run(chk, "C08")
     from props import alg_forwarding
     from cola.linalg.trace.diagonal_estimation import Exact as _Exact, Hutch as _Hutch
     alg_forwarding.forwarding(chk, "C08", _Exact)
